@@ -176,7 +176,10 @@ func genOp(t *rapid.T, label string) COp {
 		o.ResKeys = genKeys()
 	case "sign":
 		o.Key, o.UseCert = keyName(), rapid.Bool().Draw(t, label+"UC")
-		o.DataLen = rapid.SampledFrom([]int{0, 1, 32, 255, 4096, 65536}).Draw(t, label+"DL")
+		o.DataLen = rapid.SampledFrom([]int{0, 1, 32, 255, 4096, 65536, -1, -1}).Draw(t, label+"DL")
+		if o.DataLen < 0 {
+			o.DataLen = rapid.IntRange(0, 65536).Draw(t, label+"DLAny")
+		}
 		o.DataSeed = rapid.IntRange(0, 1000).Draw(t, label+"DS")
 		o.Flags = rapid.SampledFrom([]int{0, 2, 4}).Draw(t, label+"F")
 		o.SigFmt = rapid.SampledFrom([]string{ssh.KeyAlgoED25519, ssh.KeyAlgoRSASHA256, ssh.KeyAlgoRSASHA512, ssh.KeyAlgoECDSA256, "x"}).Draw(t, label+"SF")
@@ -852,6 +855,19 @@ func matchSlots(got []string, exp []slotExp) bool {
 	return rec(0, 0)
 }
 
+// catchWithin runs f like vh.Catch, but gives up after limit: a call that never returns is reported
+// instead of stalling the check until its global timeout.
+func catchWithin(limit time.Duration, f func()) error {
+	done := make(chan error, 1)
+	go func() { done <- vh.Catch(f) }()
+	select {
+	case e := <-done:
+		return e
+	case <-time.After(limit):
+		return fmt.Errorf("the call did not return within %s", limit)
+	}
+}
+
 func execTool(c ToolCase) (vh.Outcome, error) {
 	out := vh.Outcome{Classes: []string{"mode=" + c.Mode, fmt.Sprintf("remote=%v", c.Remote), fmt.Sprintf("exit=%d", c.Exit)}}
 	dir := setupTool()
@@ -872,7 +888,7 @@ func execTool(c ToolCase) (vh.Outcome, error) {
 	var slots []string
 	var cert *x509.Certificate
 	var opErr error
-	perr := vh.Catch(func() {
+	perr := catchWithin(30*time.Second, func() {
 		switch c.Mode {
 		case "listslots":
 			slots, opErr = srv.ListSlots()
@@ -899,7 +915,7 @@ func execTool(c ToolCase) (vh.Outcome, error) {
 				var viaErr error
 				var viaSlots []string
 				var viaCert *x509.Certificate
-				vperr := vh.Catch(func() {
+				vperr := catchWithin(30*time.Second, func() {
 					switch c.Mode {
 					case "listslots":
 						viaSlots, viaErr = cl.ListSlots()
